@@ -135,28 +135,23 @@ theorem scan_st_step (fuel : Nat) (hN : NodeSt agg s src Step fuel)
   · cases h
   · cases h
   · next g gt c cs =>
-    have hin : ∀ t, t ∈ c.preorder → Below (matched ++ c :: cs) t :=
-      fun t ht => Below.child (by simp) ht
+    -- the trial `matchNode` runs on a copy of the aggregator: its state is dropped
     split at h
     · cases h
-    · next st1 hm =>
-      have g1 := hok.mono hin (hN _ _ _ _ hm)
-      split at h
+    · split at h
       · next st2 he =>
         simp only [Except.ok.injEq] at h; subst h
-        refine ⟨hok.trans g1 (hok.ellipsis he ?_), List.suffix_refl _⟩
+        refine ⟨hok.ellipsis he ?_, List.suffix_refl _⟩
         intro x hx
         exact Below.of_mem (by simp at hx; simp [hx])
       · simp only [Except.ok.injEq] at h; subst h
-        exact ⟨g1, List.suffix_refl _⟩
-    · next x st1 _ hm =>
-      have g1 := hok.mono hin (hN _ _ _ _ hm)
-      split at h
+        exact ⟨hok.refl, List.suffix_refl _⟩
+    · split at h
       · simp only [Except.ok.injEq] at h; subst h
-        exact ⟨g1, List.suffix_cons _ _⟩
+        exact ⟨hok.refl, List.suffix_cons _ _⟩
       · next c2 cs2 =>
         obtain ⟨g2, s2⟩ := hS _ _ _ _ _ _ _ h
-        refine ⟨hok.trans g1 ?_, s2.trans (List.suffix_cons _ _)⟩
+        refine ⟨?_, s2.trans (List.suffix_cons _ _)⟩
         simpa using g2
 
 theorem may_st_step (fuel : Nat) (hS : ScanSt agg s src Step fuel) :
